@@ -48,7 +48,7 @@ fn arm_watchdog() -> Instant {
         std::thread::spawn(move || loop {
             std::thread::sleep(Duration::from_millis(100));
             let s = CASE_START_MS.load(Ordering::SeqCst);
-            if s != 0 && now_ms(t0) > s + 8000 {
+            if s != 0 && now_ms(t0) > s + 30000 {
                 std::process::exit(3);
             }
         });
@@ -291,7 +291,7 @@ fn run_case(c: &mut Cur) -> Vec<i128> {
     let wait = |cond: &dyn Fn() -> bool| -> bool {
         let t = Instant::now();
         while !cond() {
-            if t.elapsed() > Duration::from_millis(3000) {
+            if t.elapsed() > Duration::from_millis(10000) {
                 return false;
             }
             std::thread::sleep(Duration::from_micros(100));
